@@ -60,6 +60,19 @@ func NewGsfaReader(indexRootDir string) (*GsfaReader, error) {
 		}
 		index.man = man
 	}
+	{
+		// The pubkey index and the manifest of one gsfa index must have been built for the
+		// same epoch and CAR (the loader only sees the identity recorded in the manifest).
+		offsetsMeta := index.offsets.Meta()
+		if manifestEpoch, ok := index.man.Meta().GetUint64(indexmeta.MetadataKey_Epoch); ok && offsetsMeta != nil && manifestEpoch != offsetsMeta.Epoch {
+			index.Close()
+			return nil, fmt.Errorf("epoch mismatch inside the gsfa index: manifest has %d, pubkey index has %d", manifestEpoch, offsetsMeta.Epoch)
+		}
+		if manifestRootCid, ok := index.man.Meta().GetCid(indexmeta.MetadataKey_RootCid); ok && offsetsMeta != nil && !manifestRootCid.Equals(offsetsMeta.RootCid) {
+			index.Close()
+			return nil, fmt.Errorf("root CID mismatch inside the gsfa index: manifest has %s, pubkey index has %s", manifestRootCid, offsetsMeta.RootCid)
+		}
+	}
 	return index, nil
 }
 
